@@ -121,7 +121,7 @@ _pattern = st.one_of(st.sampled_from(PAT_FRAG), st.lists(st.sampled_from(PAT_FRA
 def _file(draw):
     return {"stem": draw(_stem), "fmt": draw(st.sampled_from(FORMATS)),
             "state": draw(st.sampled_from(["ok"] * 8 + ["trunc", "missing"])),
-            "lines": draw(st.lists(st.sampled_from(LINES), min_size=0, max_size=6)), "eol": draw(st.sampled_from([True, True, True, False])),
+            "lines": draw(st.lists(st.sampled_from(LINES), min_size=0, max_size=9)), "eol": draw(st.sampled_from([True, True, True, False])),
             "cut": draw(st.integers(0, 999)), "lzidx": draw(st.integers(0, len(LZ_FILES) - 1))}
 
 
@@ -147,8 +147,12 @@ def scenarios(draw):
     if prog != "xzgrep":
         pool = pool.replace("E", "").replace("F", "")
     scn["flags"] = draw(st.lists(st.sampled_from(pool), max_size=4, unique=True))
-    scn["ctx"] = draw(st.one_of(st.none(), st.none(), st.tuples(st.sampled_from("ABC"), st.integers(0, 2),
-                                                                st.sampled_from(["sep", "joined", "digits", "long"])).map(list)))
+    scn["ctx"] = draw(st.one_of(st.none(), st.none(), st.tuples(st.sampled_from("ABC"), st.one_of(st.integers(0, 2), st.sampled_from([10, 12, 25])),
+                                                                st.sampled_from(["sep", "joined", "digits", "long", "digitsflags", "digitsflags"])).map(list)))
+    if scn["ctx"] and scn["ctx"][2] == "digitsflags":
+        # -NUMflags in one argument: make it count - context option C, flags that keep the context lines visible, at least one flag
+        scn["ctx"][0] = "C"
+        scn["flags"] = [f for f in scn["flags"] if f in "inhHvwxsEF"] or ["n"]
     scn["m"] = draw(st.one_of(st.none(), st.none(), st.none(), st.tuples(st.integers(1, 2), st.sampled_from(["sep", "joined", "long", "longsep"])).map(list)))
     scn["pmode"] = draw(st.sampled_from(["pos", "pos", "e", "e", "ejoin", "mixed", "regexp", "regexp2", "f", "fjoin", "file", "file2"]))
     scn["pats"] = draw(st.lists(_pattern, min_size=1, max_size=3))
@@ -407,6 +411,10 @@ def build_opts(flags, ctx, m, combine, long):
     etail = False
     if long:
         args += [LONG[f] for f in flags]
+    elif flags and ctx and ctx[2] == "digitsflags" and ctx[0] == "C":
+        # GNU grep's -NUM shorthand with the other flags bundled behind it in one argument: -12in
+        args.append("-" + str(ctx[1]) + "".join(flags))
+        ctx_done = True
     elif flags and combine in ("all", "ctxtail", "etail"):
         a = "-" + "".join(flags)
         if combine == "ctxtail" and ctx and ctx[2] == "joined":
@@ -803,10 +811,11 @@ def oracle_diff(scn, S, d):
         return
     if rc != exp_status:
         sig = "C20:diff-status"
-        if rc == 1 and exp_status == 2 and early_verdict_on_decodable_prefix(prog, dopts, f1, f2, A, B, env, ref_tool):
+        ev = early_verdict_on_decodable_prefix(prog, dopts, f1, f2, A, B, env, ref_tool) if (rc in (0, 1) and exp_status == 2) else None
+        if ev is not None and ev == rc:
             # recorded finding: diff/cmp found a difference and stopped reading while the decompressor was still blocked on the pipe,
             # far before the damaged part; it dies of SIGPIPE, which xzdiff deliberately tolerates, so the damage is never noticed
-            sig = "C20:diff-verdict-1-when-damage-lies-beyond-where-diff-stops-reading"
+            sig = "C20:diff-early-exit-before-damage"
         fail(sig, f"{what}: exit status {rc}, expected {exp_status} (operand states {[f1['state'], f2['state']]}); stdout {out[:200]!r} stderr {err[:300]!r}")
         return
     if exp_out is not None and normalise_diff(prog, out) != normalise_diff(prog, exp_out):
@@ -817,21 +826,21 @@ PIPE_CAPACITY = 65536
 
 
 def early_verdict_on_decodable_prefix(prog, dopts, f1, f2, A, B, env, ref_tool):
-    """True iff every bad operand is a truncated file whose decodable prefix exceeds the pipe capacity (the decompressor is
-    certainly still blocked on the pipe when diff/cmp has seen the first buffers) and the reference tool, given those decodable
-    prefixes, reports "differ" (1).  Nothing else is attributed to the recorded finding."""
+    """-> the reference tool's verdict (0 or 1) on the decodable prefixes, or None.  Not None only if every bad operand is a truncated
+    file whose decodable prefix exceeds the pipe capacity (the decompressor is certainly still blocked on the pipe when diff/cmp has
+    seen the first buffers).  A status equal to that verdict is attributed to the recorded finding, nothing else."""
     dec = {"xz": ["xz", "-dcq"], "lzma": ["xz", "-dcq"], "lz": ["xz", "-dcq"], "txz": ["xz", "-dcq"], "tlz": ["xz", "-dcq"], "gz": ["gzip", "-dcq"], "bz2": ["bzip2", "-dcq"]}
     for f in (f1, f2):
         if f["state"] == "ok":
             continue
         if f["state"] != "trunc" or f["fmt"] not in dec:
-            return False
+            return None
         rc, pre, _ = base.run_cmd([b(x) for x in dec[f["fmt"]] + ["--", f["name"]]], stdin=b"", env=env, cwd=A)
         if rc is None or pre is None or len(pre) <= PIPE_CAPACITY:
-            return False
+            return None
         write_file(B, f["name"], pre)
     rc, _, _ = base.run_cmd([b(x) for x in [ref_tool] + dopts + ["--", f1["name"], f2["name"]]], stdin=b"", env=base.clean_env(), cwd=B)
-    return rc == 1
+    return rc if rc in (0, 1) else None
 
 
 def oracle(scn, S):
